@@ -22,7 +22,7 @@ res=""
 for c in $id "$@"; do
   out=$(cd "$snap" && VT_REPO="$d" timeout 2400 ./check "$c" --no-evidence 2>&1)
   rc=$?
-  echo "$out" | grep -E "^--- |VIOLATION|HARNESS|tier=" | cut -c1-400 > "$dst/check_$c.log"
+  echo "$out" | grep -E "^--- |VIOLATION|HARNESS|NOTE|tier=" | cut -c1-400 > "$dst/check_$c.log"
   nv=$(echo "$out" | grep -c "^VIOLATION")
   res="$res $c:rc=$rc:violations=$nv"
 done
@@ -38,6 +38,8 @@ meta=dict(property=id, variant=L, source='independent sub-agent given only the p
           our_checks={r.split(':')[0]: dict(rc=int(r.split(':')[1][3:]), violations=int(r.split(':')[2][11:])) for r in res.split()},
           needs_to_manifest=None, ran=['pytest tests/test_util.py tests/test_tsc.py -k "not test_multi" in a scratch copy with the patch',
                                        'demo.py with and without the patch', 'quick checks with VT_REPO=<scratch copy>'])
+import os
+if os.environ.get('WAVE'): meta['wave']=int(os.environ['WAVE'])
 json.dump(meta, open(dst+'/meta.json','w'), indent=1)
 open(dst+'/notes.md','w').write(notes)
 print(id, L, 'confirmed' if meta['confirmed'] else 'NOT-CONFIRMED', meta['our_checks'], 'tests', tests, 'demo', w, wo)
